@@ -1,8 +1,8 @@
 SPECIFICATION Spec
 CONSTANTS
- P = 2
+ P = 3
  N = 4
- NSq = 6000
+ NSq = 5000
  NMul = 48
  NLsqA = 128
  NLsqB = 16
